@@ -87,7 +87,7 @@ def system_text(m):
     return "\n".join(lines)
 
 
-def render_xta(m, preamble=PREAMBLE):
+def render_xta(m, preamble=PREAMBLE, abbreviate=False):
     """the same model as .xta text (common subset: no branchpoints, no probability labels, no rates on locations is NOT required:
     XTA has `{inv ; rate}`); locations get their document names (anonymous ones `_id<k>`)"""
     out = [preamble]
@@ -120,6 +120,7 @@ def render_xta(m, preamble=PREAMBLE):
             out.append("  init %s;\n" % name.get(t["init"], t["init"]))
         if t["edges"]:
             es = []
+            prev_src = None
             for e in t["edges"]:
                 arrow = "-u->" if e["ctrl"] == "false" else "->"
                 parts = []
@@ -133,7 +134,12 @@ def render_xta(m, preamble=PREAMBLE):
                     parts.append("assign %s;" % e["asg"])
                 if e["prob"]:
                     parts.append("probability %s;" % e["prob"])
-                es.append("    %s %s %s { %s }" % (name.get(e["src"], e["src"]), arrow, name.get(e["dst"], e["dst"]), " ".join(parts)))
+                # `A -> B { }, -> C { }`: an edge may omit its source when it is that of the edge before it (it cannot carry a probability then)
+                if abbreviate and prev_src == e["src"] and not e["prob"]:
+                    es.append("    %s %s { %s }" % (arrow, name.get(e["dst"], e["dst"]), " ".join(parts)))
+                else:
+                    es.append("    %s %s %s { %s }" % (name.get(e["src"], e["src"]), arrow, name.get(e["dst"], e["dst"]), " ".join(parts)))
+                prev_src = e["src"]
             out.append("  trans\n" + ",\n".join(es) + ";\n")
         out.append("}\n")
     out.append(system_text(m) + "\n")
